@@ -44,6 +44,13 @@ NOTES = {  # seed -> (after, what was strengthened)
  "C10d_m1": ("caught (C10 oracle; C02 oracle)", "closed classes in the grid; the runner checks that from_dict leaves its argument alone and decodes it equally twice"),
  "C10d_m2": ("caught (C10 oracle)", "optional parameters WITH a schema default; calls passing UNSET explicitly"),
  "C11d_m2": ("caught (C11 correspondence)", "NEW MODEL Returns.v: response_ty = union of all documented response types, return_annotation_truthful proved; Endpoint.response_type() compared with it"),
+ "C12d_m1": ("caught (C12 stage A registries_are_persistent + stage B + oracle)", "RetryThm.failed_attempt_no_trace; regenerated fact: no in-place insertion into the schema registries; every failed attempt of the real parser leaves the registries unchanged; unions / arrays with inline object members ahead of forward references under every order"),
+ "C13d_m1": ("caught (C13 stage B + oracle)", "same-class-name enum sites with equal values and different / invalid defaults, every layout, both enum styles"),
+ "C13d_m2": ("caught (C13 stage B + oracle)", "RefDefault.nullable_default_carried / nullable_default_not_dropped; enums with a null member and a default in class and literal style"),
+ "C15d_m1": ("caught (C15 correspondence + oracle)", "shared property names whose python_name differs from the JSON name (camelCase, kebab, leading digit, reserved word, case twins) in matrix, collect correspondence and documents"),
+ "C18d_m2": ("caught (C18 name correspondence + oracle)", "regenerated spelling table (every template identifier N with _N, __N, N_, ' N', -N, N-, case variants); RenameThm.spelling_avoids; PythonIdentifier compared with Names.python_identifier for every candidate and spelling"),
+ "C19d_m2": ("caught (C19 oracle)", "hostile names supplied through the CONFIGURATION (class_overrides class / module names) next to document names"),
+ "C20d_m1": ("caught (C20 oracle)", "inline <-> reference rewriting of FORWARD allOf members with suffix-related and unrelated names"),
  "C19c_m1": ("caught (C19 oracle + hook_cwd correspondence)", "post hooks: a marker hook that rewrites *.py below its working directory, all four flavours, with sentinel files around the output directory; Fs.hook_cwd"),
  "C10_m1": ("caught (C10 oracle, C02 correspondence)", "falsy-but-present values (0, \"\", false, {}, []) in the C02 atlas and the C10 grid"),
  "C10_m2": ("caught (C10 oracle; C15 caught it at once)", "allOf-refined required properties in the C10 grid"),
@@ -75,7 +82,7 @@ Each change was produced by a fresh sub-agent that saw only the property text an
 was re-verified by the coordinator (demo exits 0 on the clean tree and 1 with the patch; the pinned suite has the same pass/fail
 set with the patch). Seeds `C??b_*` are a SECOND generation for the same property: their authors were told which earlier changes
 to avoid, so they measure how the strengthened checks generalise; seeds `C??c_*` are a THIRD generation (told to avoid the earlier
-four). "first run" = the property's own quick check as it stood when
+four) and `C??d_*` a FOURTH (told to avoid the earlier six). "first run" = the property's own quick check as it stood when
 the change arrived ({c} of {n} caught); every miss led to a strengthening of generators, oracles or models, never to a special case
 for the seed. After strengthening all {n} are caught by the property's own quick check (re-tested with harness/seedtest_iso.py on isolated copies).
 
